@@ -46,7 +46,7 @@ def output_edges(ck):
 
 def run(ck):
     engine.check_engine(ck, 'C01', actor.proj(keep_out=keep, keys=('starts',)),
-                        'script starts + Ok/Invalidated messages sent', fail_p=0.4, extra=output_edges)
+                        'script starts + Ok/Invalidated messages sent', fail_p=0.4, extra=output_edges, n_evflow_quick=24)
 
 
 def replay(ck, path):
